@@ -263,7 +263,39 @@ def toldCheck (j : JState) : Option String :=
       if committedAt.isSome then some s!"C03 Commit of {st} answered a definite error but the transaction is committed" else none
     | _ => none
 
+def showKVs (l : List (Bytes × Bytes)) : String := showList (l.map fun (k, v) => s!"{hexOrTilde k}={hexOrTilde v}")
+
 def firstSome (l : List (Option String)) : Option String := l.findSome? id
+
+/-- ascending insert / replace / erase in a key-sorted pair list -/
+def kvPut (l : List (Bytes × Bytes)) (k v : Bytes) : List (Bytes × Bytes) :=
+  match l with
+  | [] => [(k, v)]
+  | (k', v') :: rest =>
+    if k == k' then (k, v) :: rest
+    else if Bytes.lt k k' then (k, v) :: (k', v') :: rest
+    else (k', v') :: kvPut rest k v
+
+/-- C01/C07 (a transaction's own scan): `iter` / `riter` of a transaction returns its snapshot at the start ts overlaid with
+    the writes and deletes the trace shows for it so far (its buffer), in key order, cut at the limit -/
+def ownIterCheck (j : JState) (client call : String) (st : Nat) (args tail : List String) : Option String :=
+  match args, tail with
+  | [lo, hi, lim], ["ok", res] =>
+    match hx lo, hx hi, lim.toNat? with
+    | some lo, some hi, some lim =>
+      let buf := match j.mon.find st with | some t => t.buffer | none => []
+      let base := (snapRange j.store lo hi st).filter (!·.2.isEmpty)
+      let merged := buf.foldl (fun acc b =>
+        if !b.hasValue || !inRange lo hi b.key then acc
+        else if b.value.isEmpty then acc.filter (·.1 != b.key)
+        else kvPut acc b.key b.value) base
+      let dir := if call == "riter" then merged.reverse else merged
+      let exp := if lim == 0 then dir else dir.take lim
+      let got := parseKVs res
+      if got == exp then none
+      else some s!"C01 {call} [{hexOrTilde lo},{hexOrTilde hi}) limit {lim} of transaction {st} ({client}) returned {showKVs got} but its snapshot with its own writes shows {showKVs exp}"
+    | _, _, _ => none
+  | _, _ => none
 
 /-- C01 (locking read): a `lock` call that names its for-update ts (`fu=<sel>:<ts>`, HUB.md) and returns values or
     existence returns the newest committed value at that ts — at the conflict ts for a key locked with conflict.
@@ -294,7 +326,6 @@ def lockReadCheck (st : Store) (args tail : List String) : Option String :=
     | none => none
   | _, _ => none
 
-def showKVs (l : List (Bytes × Bytes)) : String := showList (l.map fun (k, v) => s!"{hexOrTilde k}={hexOrTilde v}")
 
 /-- C05: a snapshot read through any access path (`snapget` / `snapbget` / `snapiter` / `snapriter`, HUB.md) returns what
     the model store shows at the timestamp the call carries (the snapshot's timestamp in force); `some msg` = it does not.
@@ -487,7 +518,11 @@ def step (j : JState) (line : String) : JState × String :=
             monEv j3 [.ended p.client st] none
           | "rollback", _ => monEv j1 [.ended p.client st] none
           | c, _ =>
-            if c.startsWith "snap" then
+            if c == "iter" || c == "riter" then
+              match ownIterCheck j1 p.client c st p.args tail with
+              | some f => (j1, s!"FAIL {f}")
+              | none => (j1, "ok")
+            else if c.startsWith "snap" then
               match snapCheck j1.store c p.args tail with
               | some f => (j1, s!"FAIL {f}")
               | none => (j1, "ok")
